@@ -22,6 +22,10 @@ type c04Op struct {
 	ID     int    `json:"id,omitempty"`
 	From   string `json:"from,omitempty"` // pre: rewrite rule
 	To     string `json:"to,omitempty"`
+	FromM  string `json:"from_method,omitempty"` // pre: method rewrite rule (like middleware.MethodOverride)
+	ToM    string `json:"to_method,omitempty"`
+	FromH  string `json:"from_host,omitempty"` // pre: Host rewrite rule
+	ToH    string `json:"to_host,omitempty"`
 	Name   string `json:"name,omitempty"`   // host
 	Parent int    `json:"parent,omitempty"` // group: -1 = echo
 	Prefix string `json:"prefix,omitempty"`
@@ -66,6 +70,16 @@ func c04Wire(c *c04Case) string {
 			} else {
 				parts = append(parts, "0", wInt(o.ID), "0")
 			}
+			if o.FromM != "" {
+				parts = append(parts, "1", wStr(o.FromM), wStr(o.ToM))
+			} else {
+				parts = append(parts, "0")
+			}
+			if o.FromH != "" {
+				parts = append(parts, "1", wStr(o.FromH), wStr(o.ToH))
+			} else {
+				parts = append(parts, "0")
+			}
 		case "use":
 			parts = append(parts, "1", wInt(o.ID))
 		case "host":
@@ -95,13 +109,22 @@ func c04Run(ci any) Result {
 	var trace []string
 	e := echo.New()
 	e.Logger.SetOutput(nopWriter{})
+	var preRule c04Op
 	mw := func(id int, from, to string) echo.MiddlewareFunc {
+		rule := preRule
+		preRule = c04Op{}
 		return func(next echo.HandlerFunc) echo.HandlerFunc {
 			return func(ctx echo.Context) error {
 				trace = append(trace, "I"+strconv.Itoa(id))
 				if from != "" && ctx.Request().URL.Path == from {
 					ctx.Request().URL.Path = to
 					ctx.Request().URL.RawPath = ""
+				}
+				if rule.FromM != "" && ctx.Request().Method == rule.FromM {
+					ctx.Request().Method = rule.ToM
+				}
+				if rule.FromH != "" && ctx.Request().Host == rule.FromH {
+					ctx.Request().Host = rule.ToH
 				}
 				err := next(ctx)
 				if err != nil {
@@ -142,6 +165,7 @@ func c04Run(ci any) Result {
 		for _, o := range c.Ops {
 			switch o.Kind {
 			case "pre":
+				preRule = o
 				e.Pre(mw(o.ID, o.From, o.To))
 			case "use":
 				e.Use(mw(o.ID, "", ""))
@@ -324,10 +348,24 @@ func c04Run(ci any) Result {
 		}
 	}
 	// group scoping
-	effPath := c.Req.Path
+	effPath, effMethod, effHost := c.Req.Path, c.Req.Method, c.Req.Host
 	for _, o := range c.Ops {
 		if o.Kind == "pre" && o.From != "" && effPath == o.From {
 			effPath = o.To
+		}
+		if o.Kind == "pre" && o.FromM != "" && effMethod == o.FromM {
+			effMethod = o.ToM
+		}
+		if o.Kind == "pre" && o.FromH != "" && effHost == o.FromH {
+			effHost = o.ToH
+		}
+	}
+	// the handler that ran must be registered for the method as the Pre chain left it
+	if handlerHid >= 0 {
+		for _, o := range c.Ops {
+			if o.Kind == "add" && o.Hid == handlerHid && o.Method != effMethod {
+				fail(fmt.Sprintf("handler %d is registered for %s but ran for a request whose method after the Pre chain is %s", handlerHid, o.Method, effMethod))
+			}
 		}
 	}
 	hostRegistered := func(h string) bool {
@@ -339,8 +377,8 @@ func c04Run(ci any) Result {
 		return false
 	}
 	reqHost := ""
-	if hostRegistered(c.Req.Host) {
-		reqHost = c.Req.Host
+	if hostRegistered(effHost) {
+		reqHost = effHost
 	}
 	inTrace := func(id int) bool { return seen[id] > 0 }
 	for gi, g := range infos {
@@ -351,7 +389,7 @@ func c04Run(ci any) Result {
 			if outside {
 				for _, id := range g.own {
 					if inTrace(id) {
-						fail(fmt.Sprintf("middleware %d of group %d (host %q prefix %q) ran for %q on host %q", id, gi, g.host, g.prefix, effPath, c.Req.Host))
+						fail(fmt.Sprintf("middleware %d of group %d (host %q prefix %q) ran for %q on host %q", id, gi, g.host, g.prefix, effPath, effHost))
 					}
 				}
 			}
@@ -400,7 +438,7 @@ func c04Run(ci any) Result {
 		if inside {
 			for _, id := range g.creation {
 				if !inTrace(id) {
-					fail(fmt.Sprintf("group %d (host %q prefix %q) middleware %d did not run for %s %q (pattern %q, trace %s)", gi, g.host, g.prefix, id, c.Req.Method, effPath, seenPath, res.Obs))
+					fail(fmt.Sprintf("group %d (host %q prefix %q) middleware %d did not run for %s %q (pattern %q, trace %s)", gi, g.host, g.prefix, id, effMethod, effPath, seenPath, res.Obs))
 				}
 			}
 		}
@@ -560,6 +598,14 @@ func c04Gen(r *rand.Rand, tier string) []any {
 					o.From = c04Segs[r.Intn(len(c04Segs))] + []string{"", "/old", "/a"}[r.Intn(3)]
 					o.To = c04Segs[r.Intn(len(c04Segs))] + []string{"", "/new", "/a", "/missing"}[r.Intn(4)]
 					rewriteFrom = append(rewriteFrom, o.From)
+				}
+				switch r.Intn(6) {
+				case 0: // a method override
+					o.FromM = []string{"GET", "POST", "PUT"}[r.Intn(3)]
+					o.ToM = []string{"GET", "POST", "PUT", "DELETE"}[r.Intn(4)]
+				case 1: // a Host rewrite
+					o.FromH = []string{"a.com", "b.org", "other.net", ""}[r.Intn(4)]
+					o.ToH = []string{"a.com", "b.org", "other.net"}[r.Intn(3)]
 				}
 				ops = append(ops, o)
 			case x < 4:
